@@ -714,8 +714,13 @@ class Cooperator:
         iterators which have been added and forget about them.
         """
         self._stopped = True
-        for taskObj in self._tasks:
-            taskObj._completeWith(SchedulerStopped(), Failure(SchedulerStopped()))
+        # Completing a task removes it from self._tasks (and its Deferreds may
+        # re-enter this Cooperator), so take the tasks from the front of the
+        # list until none is left rather than iterating over it.
+        while self._tasks:
+            self._tasks[0]._completeWith(
+                SchedulerStopped(), Failure(SchedulerStopped())
+            )
         self._tasks = []
         if self._delayedCall is not None:
             self._delayedCall.cancel()
